@@ -278,10 +278,27 @@ class BddExt(Extension):
             return None
         if fn.ty == 'boolop' and len(args) == 2 and all(a.ty == 'bool' for a in args):
             return SV('bool', OP(fn.t, args[0].t, args[1].t))
+        if fn.ty == 'bclass' and fn.x == 'BDDNode' and len(args) == 1 and args[0].ty in ('bool', 'aconstv'):
+            # BDDNode.__new__(cls, *data) with one datum dispatches to BDDTerminalNode(data[0])
+            a0 = args[0]
+            if a0.ty == 'aconstv':
+                from .contracts_obddparse import aconst
+                ex.oblige('safety:terminal_value_is_0_or_1:L%d' % node.lineno, path, z3.And(aconst(a0.t) >= 0, aconst(a0.t) <= 1), ('safety',), node.lineno)
+                a0 = SV('bool', aconst(a0.t) == 1)
+            return E.call_contract(ex, 'BDDTerminalNode.__new__', [SV('str'), a0], kwargs, path, node)
+        if fn.ty == 'bclass' and fn.x == 'BDDNode' and len(args) == 3:
+            # ... and with three data to BDDNonTerminalNode(*data)
+            return E.call_contract(ex, 'BDDNonTerminalNode.__new__', [SV('str')] + args, kwargs, path, node)
         if fn.ty == 'bclass' and fn.x == 'BDDNonTerminalNode' and len(args) == 3:
             return E.call_contract(ex, 'BDDNonTerminalNode.__new__', [SV('str')] + args, kwargs, path, node)
         if fn.ty == 'bclass' and fn.x == 'BDDTerminalNode' and len(args) == 1 and args[0].ty == 'bool':
             return E.call_contract(ex, 'BDDTerminalNode.__new__', [SV('str')] + args, kwargs, path, node)
+        return None
+
+    def binop(self, E, ex, op, a, b, path, node):
+        if self.on(ex) and a.ty == 'obdd' and b.ty == 'obdd' and op in ('BitAnd', 'BitOr', 'BitXor'):
+            q = {'BitAnd': 'OBDD.__and__', 'BitOr': 'OBDD.__or__', 'BitXor': 'OBDD.__xor__'}[op]
+            return E.call_contract(ex, q, [a, b], {}, path, node)
         return None
 
     def equal(self, E, ex, a, b, path, node):
@@ -347,6 +364,8 @@ class BddExt(Extension):
         if base.ty == 'bnode' and attr == '__invert__':
             # dynamic dispatch: both bodies (terminal / non-terminal) are verified against the same clauses
             return E.call_contract(ex, 'BDDNonTerminalNode.__invert__', [base] + args, kwargs, path, node)
+        if base.ty == 'obdd' and attr == '__invert__' and not args:
+            return E.call_contract(ex, 'OBDD.__invert__', [base], kwargs, path, node)
         if base.ty == 'bnode' and attr in ('descendents', 'variables') and not args:
             return E.call_contract(ex, 'BDDNode.%s' % attr, [base], kwargs, path, node)
         if base.ty == 'bnode' and attr == 'restrict':
@@ -886,7 +905,7 @@ def install(E):
         return frame(c.h0, c.h1, c.h0.alloc, {'o_root': lambda r: r == o, 'o_ord': lambda r: r == o})
 
     E.register(Contract(
-        'OBDD.__init__', 'obdd', [('self', 'obdd'), ('bfunct', 'bnode'), ('ordering', 'ordering'), ('check_ordering', 'opt:bool')], ret='none',
+        'OBDD.__init__', 'obdd', [('self', 'obdd'), ('bfunct', 'bnode'), ('ordering', 'ordering'), ('check_ordering', 'bool')], ret='none',
         requires=lambda c: [('self_valid', z3.And(c.self.t >= 0, c.self.t < c.h0.alloc))], ensures=oinit_ens, frame=oinit_frame,
         may_write=lambda c, comp, ref: (ref == c.self.t) if comp in ('o_root', 'o_ord') else None,
         touches={'o_root', 'o_ord'}, hints=dict(common, may_raise=('ValueError',)), raise_unchanged=False, owner='C17',
@@ -926,7 +945,7 @@ def install(E):
         def ens(c, opterm=opterm):
             h0, h1, r = c.h0, c.h1, c.res.t
             return node_state(h1) + nodes_kept(h0, h1) + [
-                ('result_is_a_new_OBDD', z3.And(r >= h0.alloc, obdd_ok(h1, r))),
+                ('result_is_a_new_OBDD', z3.And(r >= h0.alloc, obdd_ok(h1, r), h1['o_ord'][r] == h0['o_ord'][c.self.t])),
                 ('denotes_the_combination', z3.ForAll([SG], den(h1, root(h1, r))[SG] == opterm(den(h1, root(h0, c.self.t))[SG],
                                                                                              den(h1, root(h0, c.A.t))[SG]),
                                                       patterns=[den(h1, root(h1, r))[SG]]))]
@@ -939,7 +958,7 @@ def install(E):
     def oinv_ens(c):
         h0, h1, r = c.h0, c.h1, c.res.t
         return node_state(h1) + nodes_kept(h0, h1) + [
-            ('result_is_a_new_OBDD', z3.And(r >= h0.alloc, obdd_ok(h1, r))),
+            ('result_is_a_new_OBDD', z3.And(r >= h0.alloc, obdd_ok(h1, r), h1['o_ord'][r] == h0['o_ord'][c.self.t])),
             ('denotes_the_complement', z3.ForAll([SG], den(h1, root(h1, r))[SG] == z3.Not(den(h1, root(h0, c.self.t))[SG]),
                                                  patterns=[den(h1, root(h1, r))[SG]]))]
 
